@@ -32,6 +32,23 @@ IS `Model.mainP`, the program the conformance run compares with the real binary 
   of the file system, every fault plan, every interleaving).
 * `C18_config_time`: the parser tests exactly the `~`-expanded strings; a configuration it rejects is rejected as a
   whole; literal and macro-expanded paths are tested where they are used.
+
+Audit notes.  (1) At the list level a setter has the type `... → Option Bytes` and is DEFINED as "the full string if it
+is shorter than the buffer, else `none`": a truncated string is not a value the list-level model can produce, so
+`C18_pathjoin_exact`, `C18_strlcpy_exact`, `C18_limits_exact`, `C18_limits_boundary`, `C18_readenv_exact` restate
+definitions (off-by-one included: `≥` in the definition, `<` in the statement).  What they would miss - a C setter that
+ignores the return value of `snprintf` / `strlcpy` and goes on with the cut string - is caught by the correspondence run,
+by `C18_L0_truncation_never_used` (index level, where the truncation IS in the buffer) and by
+`C18_defaultconf_exact` / `_needs_ge` (`snprintfInto` does truncate), not by those statements.  The theorems with content
+are the ones about what the PROGRAM does after a `none`: `C18_unit_refines`, `C18_run_units`, `C18_refines_unbounded`,
+`C18_no_truncated_path`, `C18_config_time`, `C18_interpolation_*`, `C18_sane_needed`.
+(2) `PATH_MAX = 4096`, `NAME_MAX + 1 = 256`, the TZ buffer 256 are constants written in `Model/Eval.lean` / `Model/Start.lean`
+(and again in tools/props/c18.py); they are not regenerated from <limits.h> or from the declarations of the buffers in the
+C sources, so `C18_limits` is `decide` on the model's own constants.
+(3) In `C18_no_truncated_path` the segment `rest` (everything after the releases of the first unit that overflowed) is not
+constrained by that statement beyond "the run ends with the error flag and a non-zero status"; for it the claim "no
+truncated path" rests on `C18_run_units` + `C18_unit_no_truncated_path` (every later unit, from whatever state it starts
+in, is in lock step with the same unit under ideal strings) - there is no single trace-level statement for the whole run.
 -/
 
 namespace Mdsort.Props
@@ -60,7 +77,7 @@ theorem C18_strlcpy_exact (n : Nat) (s : Bytes) :
   · have : s.length ≥ n := by omega
     simp [h, this]
 
-/-- The platform's limits. -/
+/-- The platform's limits as the model has them (hand-written constants of `Model/Eval.lean`; see audit note 2). -/
 theorem C18_limits : NAME_MAX1 = 256 ∧ PATH_MAX = 4096 := by decide
 
 /-! ## the limits as parameters -/
